@@ -36,6 +36,8 @@ KEYS = tuple(FLOORS["quick"].keys()) + ("downstream_transmissions", "fractional_
 # floors for the situations added with the later rounds of seeded changes (evidence that they were really exercised)
 FLOORS["quick"].update({'echoed_arrivals_inside_next_hop_put': 4000, 'late_arrivals_inside_an_instant': 3000, 'store_as_next_hop_cases': 150})
 FLOORS["thorough"].update({'echoed_arrivals_inside_next_hop_put': 20000, 'late_arrivals_inside_an_instant': 15000, 'store_as_next_hop_cases': 750})
+FLOORS["quick"].update({'downstream_transmissions': 5000, 'fractional_size_cases': 100})
+FLOORS["thorough"].update({'downstream_transmissions': 25000, 'fractional_size_cases': 500})
 
 
 def plan(tier):
